@@ -33,8 +33,8 @@ def _logu(rng: random.Random, lo: float, hi: float) -> float:
 class GridMachine(Machine):
     PROP = "C17"
     MAX_STEPS = 14
-    MUTATORS = frozenset({"rescale", "mom", "rejected"})
-    OBSERVERS = frozenset({"observe", "rescale", "mom", "rejected"})
+    MUTATORS = frozenset({"rescale", "mom", "rejected", "other_grid"})
+    OBSERVERS = frozenset({"observe", "rescale", "mom", "rejected", "other_grid"})
     RULE = (
         "one history = one Grid3Scales (80%) or Grid (20%) object with seeded M, N, "
         "spacing, r, smoothing and initial scales, then up to 14 steps drawn from "
@@ -73,8 +73,8 @@ class GridMachine(Machine):
                      "probes": ["on_constraint_boundary", "rejected_then_accepted",
                                 "rescale_count_ge5", "plain_grid", "uniform_spacing"]},
     }
-    OPS = ("rescale", "rejected", "mom", "observe")
-    POSSIBLE_BIGRAMS = 4 + 4 * 4
+    OPS = ("rescale", "rejected", "mom", "observe", "other_grid")
+    POSSIBLE_BIGRAMS = 5 + 5 * 5
 
     # ------------------------------------------------------------------ config
     @staticmethod
@@ -88,6 +88,7 @@ class GridMachine(Machine):
                      # swarm: workload mix of this run
                      "wRescale": rng.choice([1, 2, 4]), "wRejected": rng.choice([0, 1, 2]),
                      "wMom": rng.choice([0, 1, 2]), "wObserve": rng.choice([1, 2, 3]),
+                     "wOther": rng.choice([0, 0, 1]),
                      "pEom": rng.choice([0.0, 0.33, 0.8])}
         if cls == "Grid3Scales":
             L = _logu(rng, 1e-2, 1e2)
@@ -132,6 +133,7 @@ class GridMachine(Machine):
         else:
             self.params = {"L": cfg["L"], "T": cfg["T"]}
         self.nAccepted = 0
+        self.others: list = []
         self.lastRejected = False
         self.everRejected = False
         with warnings.catch_warnings():
@@ -156,6 +158,7 @@ class GridMachine(Machine):
     def nextStep(self, rng: random.Random, index: int) -> dict | None:
         c = self.cfg
         ops = ["rescale"] * c["wRescale"] + ["mom"] * c["wMom"] + ["observe"] * c["wObserve"]
+        ops += ["other_grid"] * c.get("wOther", 0)
         if self.is3:
             ops += ["rejected"] * c["wRejected"]
         if index == self.MAX_STEPS - 1:
@@ -177,7 +180,8 @@ class GridMachine(Machine):
                         "centre": p["centre"], "tailIn": p["tailIn"], "tailOut": p["tailOut"]}
                 lim = _lim(p["L"], r, s)
                 if which == "centre":
-                    step["centre"] = p["L"] * rng.uniform(-3, 3)
+                    # exactly zero is a centre like any other (and the default)
+                    step["centre"] = 0.0 if rng.random() < 0.3 else p["L"] * rng.uniform(-3, 3)
                 elif which in ("tailIn", "tailOut"):
                     step[which] = lim * (1 + _logu(rng, 1e-3, 1e2))
                 elif which == "L":
@@ -196,7 +200,7 @@ class GridMachine(Machine):
                 step["tailOut"] = max(step["tailOut"], lim * (1 + 1e-6))
                 return step
             L = _logu(rng, 1e-2, 1e2)
-            centre = L * rng.uniform(-3, 3)
+            centre = 0.0 if rng.random() < 0.1 else L * rng.uniform(-3, 3)
             if rng.random() < c["pEom"]:
                 # exactly what EOM._updateGrid passes when the mean free path is
                 # short (or off-equilibrium is off): tails ON the boundary formula
@@ -231,6 +235,15 @@ class GridMachine(Machine):
             return step
         if op == "mom":
             return {"op": "mom", "T": _logu(rng, 1e-2, 1e2)}
+        if op == "other_grid":
+            # a second grid object with other scales comes to life in the same process
+            # (the manager builds a new Grid3Scales for every solve) and is rescaled
+            L = _logu(rng, 1e-2, 1e2)
+            r, sm = rng.uniform(0.1, 0.9), _logu(rng, 1e-2, 0.9)
+            lim = _lim(L, r, sm)
+            return {"op": "other_grid", "L": L, "r": r, "s": sm, "T": _logu(rng, 1e-2, 1e2),
+                    "tailIn": lim * (1 + _logu(rng, 1e-3, 1e2)),
+                    "tailOut": lim * (1 + _logu(rng, 1e-3, 1e2)), "centre": L * rng.uniform(-3, 3)}
         nPts = rng.choice([1, 3, 6])
         edge = rng.choice([0.9, 0.99, 0.999])
         chi = sorted(rng.uniform(-edge, edge) for _ in range(nPts))
@@ -272,6 +285,8 @@ class GridMachine(Machine):
                 obs = self._rejected(step)
             elif op == "mom":
                 obs = self._mom(step)
+            elif op == "other_grid":
+                obs = self._otherGrid(step)
             elif op == "observe":
                 obs = self._observe(step)
             else:
@@ -348,6 +363,18 @@ class GridMachine(Machine):
         self.everRejected = True
         return ["rejected", raised]
 
+    def _otherGrid(self, step: dict) -> Any:
+        c = self.cfg
+        other = self.WallGo.Grid3Scales(c["M"], c["N"], step["tailIn"], step["tailOut"],
+                                        step["L"], step["T"], step["r"], step["s"],
+                                        step["centre"], c["spacing"])
+        other.changePositionFalloffScale(step["tailIn"] * 1.5, step["tailOut"] * 1.25,
+                                         step["L"], -step["centre"])
+        other.changeMomentumFalloffScale(step["T"] * 2)
+        self.others = (self.others + [other])[-2:]  # stays alive
+        self.ctx.probes["second_grid_object_alive"] += 1
+        return ["other_grid"]
+
     def _mom(self, step: dict) -> Any:
         if not step["T"] > 0:
             raise Skip()
@@ -360,8 +387,11 @@ class GridMachine(Machine):
         """history == fresh, compared through public attributes and methods"""
         self.ctx.checks["fresh_equality"] += 1
         g = self.grid
-        f = self._construct(self.params)
         where = "after a rejected rescale" if self.lastRejected else "after rescale history"
+        # the object's own consistency first: constructing the fresh grid below would
+        # re-write any state that instances wrongly share
+        self._selfConsistency(where)
+        f = self._construct(self.params)
         obs = []
         p = self.params
         zScale = p["L"] if not self.is3 else (p["L"] / self.cfg["r"] + p["tailIn"]
@@ -384,15 +414,6 @@ class GridMachine(Machine):
                         raise Violation("fresh-equality", f"method:{meth}",
                                         f"{meth}(endpoints={endpoints})[{i}] differs from a "
                                         f"fresh grid {where}", {"params": self.params})
-        # the cache is the map evaluated at the compact coordinates
-        chi, rz, rp = g.getCompactCoordinates()
-        for name, a, b in zip(CACHED, list(g.decompactify(chi, rz, rp))
-                              + list(g.compactificationDerivatives(chi, rz, rp)),
-                              [getattr(g, n) for n in CACHED]):
-            if not _same(np.asarray(a), b, scales[name]):
-                raise Violation("cache-consistency", f"cached:{name}",
-                                f"cached {name} is not the map evaluated on the grid's "
-                                f"compact coordinates {where}")
         if pts is not None:
             chi, rz, rp = pts
             for meth, args in (("decompactify", (chi, rz, rp)),
@@ -413,6 +434,36 @@ class GridMachine(Machine):
                                     f"grid {where}: {np.asarray(a)} vs {np.asarray(b)}",
                                     {"params": self.params})
         return obs
+
+    def _scales(self) -> dict:
+        p = self.params
+        zScale = p["L"] if not self.is3 else (p["L"] / self.cfg["r"] + p["tailIn"]
+                                              + p["tailOut"] + abs(p["centre"]))
+        return {"xiValues": zScale, "dxidchi": zScale, "pzValues": p["T"], "dpzdrz": p["T"],
+                "ppValues": p["T"], "dppdrp": p["T"], 0: zScale, 1: p["T"], 2: p["T"]}
+
+    def _selfConsistency(self, where: str) -> None:
+        """the cache is the map evaluated at the compact coordinates, and the centre
+        slope of the three-scale map is L/r -- checked on the object as it is"""
+        g = self.grid
+        scales = self._scales()
+        chi, rz, rp = g.getCompactCoordinates()
+        for name, a, b in zip(CACHED, list(g.decompactify(chi, rz, rp))
+                              + list(g.compactificationDerivatives(chi, rz, rp)),
+                              [getattr(g, n) for n in CACHED]):
+            if not _same(np.asarray(a), b, scales[name]):
+                raise Violation("cache-consistency", f"cached:{name}",
+                                f"cached {name} is not the map evaluated on the grid's "
+                                f"compact coordinates {where}")
+        if self.is3:
+            j0 = float(g.compactificationDerivatives(
+                np.array(0.0), np.array(0.0), np.array(0.0))[0])
+            want = self.params["L"] / self.cfg["r"]
+            self.ctx.margin("centre-slope", abs(j0 / want - 1) / 1e-10)
+            if not abs(j0 / want - 1) <= 1e-10:
+                raise Violation("centre-slope", "L/r",
+                                f"dz/dchi(0) = {j0!r}, expected L/r = {want!r}",
+                                {"params": self.params})
 
     def _observe(self, step: dict) -> Any:
         g = self.grid
